@@ -195,9 +195,23 @@ def grep_forbidden(files: list[Path]) -> list[str]:
 
 
 def lean_sources_for(prop: str) -> list[Path]:
-    fs = [p for p in (LEAN / "Pose").rglob("*.lean")]
-    fs += [p for p in (LEAN / "Proofs").rglob("*.lean")]
-    return fs
+    """the local import closure of Proofs.Props.<prop> and Drv.<prop> (files of other properties that are not
+    imported cannot influence this property's obligations, so they are not grepped)"""
+    roots = [LEAN / "Proofs" / "Props" / f"{prop}.lean", LEAN / "Drv" / f"{prop}.lean"]
+    seen: dict[Path, None] = {}
+    todo = [r for r in roots if r.exists()]
+    while todo:
+        f = todo.pop()
+        if f in seen:
+            continue
+        seen[f] = None
+        for line in f.read_text().splitlines():
+            m = re.match(r"^\s*(?:public\s+)?import\s+(\S+)", line)
+            if m and m.group(1).split(".")[0] in ("Pose", "Proofs", "Drv"):
+                g = LEAN / (m.group(1).replace(".", "/") + ".lean")
+                if g.exists():
+                    todo.append(g)
+    return list(seen)
 
 
 def audit(prop: str, thorough: bool = False) -> dict:
